@@ -525,6 +525,13 @@ pub struct World {
 	pub blocking_ops: Cell<u32>,
 	pub wait_events: Cell<u32>,
 	pub hold_and_wait: Cell<u32>,
+	/// report a wait-while-holding at the event itself (retrying collections)
+	pub check_hold_wait: Cell<bool>,
+	/// optional probe evaluated at every release of lock `probe_lock`: bit 0 of `probe_last` = result at the last release
+	pub probe_fn: Cell<Option<fn(usize) -> bool>>,
+	pub probe_arg: Cell<usize>,
+	pub probe_lock: Cell<u8>,
+	pub probe_last: Cell<u8>,
 	pub bad_release: Cell<u32>,
 	pub self_wait: Cell<u32>,
 	pub api_armed: Cell<bool>,
@@ -565,6 +572,11 @@ pub static WORLD: SyncWorld = SyncWorld(World {
 	blocking_ops: Cell::new(0),
 	wait_events: Cell::new(0),
 	hold_and_wait: Cell::new(0),
+	check_hold_wait: Cell::new(false),
+	probe_fn: Cell::new(None),
+	probe_arg: Cell::new(0),
+	probe_lock: Cell::new(NOID),
+	probe_last: Cell::new(2),
 	bad_release: Cell::new(0),
 	self_wait: Cell::new(0),
 	api_armed: Cell::new(false),
@@ -602,6 +614,11 @@ impl World {
 		self.blocking_ops.set(0);
 		self.wait_events.set(0);
 		self.hold_and_wait.set(0);
+		self.check_hold_wait.set(false);
+		self.probe_fn.set(None);
+		self.probe_arg.set(0);
+		self.probe_lock.set(NOID);
+		self.probe_last.set(2);
 		self.bad_release.set(0);
 		self.self_wait.set(0);
 		self.api_armed.set(false);
@@ -704,6 +721,16 @@ impl World {
 		eng::event(E_WAIT, id as u32 | ((shared as u32) << 8), self.held_x.get() | (self.held_s.get() << 16));
 		if (self.held_x.get() | self.held_s.get()) & !self.wait_ok_mask.get() != 0 {
 			self.hold_and_wait.set(self.hold_and_wait.get() + 1);
+			if self.check_hold_wait.get() {
+				#[cfg(kani)]
+				{
+					assert!(false, "M_HOLD_AND_WAIT");
+				}
+				#[cfg(not(kani))]
+				{
+					eng::check_fn(false, M_HOLD_AND_WAIT);
+				}
+			}
 		}
 	}
 	fn note_self_wait(&self, id: u8) -> ! {
@@ -718,6 +745,14 @@ impl World {
 			eng::check_fn(false, M_SELF_WAIT);
 		}
 		eng::fatal()
+	}
+	/// called by the audit locks right before a release takes effect
+	fn probe_at_release(&self, id: u8) {
+		if id == self.probe_lock.get() {
+			if let Some(f) = self.probe_fn.get() {
+				self.probe_last.set(f(self.probe_arg.get()) as u8);
+			}
+		}
 	}
 	fn note_bad_release(&self, kind: u32, id: u8) {
 		self.bad_release.set(self.bad_release.get() + 1);
@@ -822,6 +857,7 @@ unsafe impl lock_api::RawMutex for AuditMutex {
 		let w = w();
 		let id = self.id.get();
 		w.pre_op(K_UNLOCK_X, id);
+		w.probe_at_release(id);
 		if self.st.get() != ST_T0 {
 			w.note_bad_release(K_UNLOCK_X, id);
 		} else {
@@ -956,6 +992,7 @@ unsafe impl lock_api::RawRwLock for AuditRwLock {
 		let w = w();
 		let id = self.id.get();
 		w.pre_op(K_UNLOCK_S, id);
+		w.probe_at_release(id);
 		if self.s0.get() == 0 {
 			w.note_bad_release(K_UNLOCK_S, id);
 		} else {
@@ -1021,6 +1058,7 @@ unsafe impl lock_api::RawRwLock for AuditRwLock {
 		let w = w();
 		let id = self.id.get();
 		w.pre_op(K_UNLOCK_X, id);
+		w.probe_at_release(id);
 		if self.x.get() != ST_T0 {
 			w.note_bad_release(K_UNLOCK_X, id);
 		} else {
